@@ -3,6 +3,7 @@
   `_process_packet` on the reply and `_get_local_key`; the state-machine part — key stored only on
   success, nothing but handshake requests written — is in Props/C07 over the Session model).
 -/
+import Msmart.Lemmas.CodecEqLan
 import Msmart.Props.C05
 
 set_option linter.unusedSimpArgs false
@@ -136,5 +137,20 @@ theorem encrypted_before_key_rejected (p : Bytes) (b5 : UInt8) (h2 : p.take 2 = 
 example : ∃ payload, processPacket none (Spec.V3.handshakeReply (Py.zeros 32) (List.replicate 32 7) 0) = .ok payload ∧
     getLocalKey (Py.zeros 32) payload = .ok (Spec.V3.sessionKey (Py.zeros 32) (List.replicate 32 7)) :=
   handshake_agreement _ _ (by decide) (by decide) 0 none
+
+
+/-! ### the same statements about the code as translated from the source text (tie by translation, §3.1b) -/
+
+/-- **C06 (agreement) about the translated `_process_packet` and `_get_local_key`.** -/
+theorem handshake_agreement_code (key nonce : Bytes) (hn : nonce.length = 32) (hk : key.length = 32) (ctr : Nat)
+    (k : Option Bytes) :
+    ∃ payload, Generated.Codec.processPacket k (Spec.V3.handshakeReply key nonce ctr) = .ok payload ∧
+      Generated.Codec.getLocalKey key payload = .ok (Spec.V3.sessionKey key nonce) := by
+  obtain ⟨p, h1, h2⟩ := handshake_agreement key nonce hn hk ctr k
+  exact ⟨p, by rw [CodecEq.processPacket_eq]; exact h1, by rw [CodecEq.getLocalKey_eq]; exact h2⟩
+
+theorem wrong_length_rejected_code (key data : Bytes) (h : data.length ≠ 64) :
+    Generated.Codec.getLocalKey key data = .error .auth := by
+  rw [CodecEq.getLocalKey_eq]; exact wrong_length_rejected key data h
 
 end Msmart.Props.C06
